@@ -512,7 +512,9 @@ func (m *M1) ApplyDeleteContainer(cn int) {
 // reported as removed (tomb, -1 if none) disappears.
 func (m *M1) ApplyRevive(cn, id, tomb int) {
 	c := m.C[cn]
-	if e := c.Stored[id]; c.Marks[id] != MarkNone && (e == nil || !e.Phy) {
+	if e := c.Stored[id]; e == nil || !e.Phy {
+		// reviving an address that is not a stored physical object (its garbage key may be
+		// gone already): counted as an operation on a non-physical garbage key
 		c.NonPhyMarkOps++
 	}
 	delete(c.Marks, id)
